@@ -18,6 +18,8 @@
  *   c35_rec         records d at every clock hook; methods count, seen_words(i),
  *                   seen_mask(i), seen_cycle(i)
  *   c35_init        drives its parameter P onto q in on_init
+ *   c35_mix         per hook `sel` picks the read API for d and the write API for q
+ *                   (full mask / NULL mask / scalar), on the same ports over time
  *   c35_probe       params P (bits) / S (string); methods param, param_width, s_hash,
  *                   s_len, echo, width_of, nargs, last, xor, str_hash, unit
  */
@@ -66,13 +68,13 @@ _Static_assert(sizeof(VrlValue) == 48, "native VrlValue layout");
 #define MAXW 8    /* words per value: 512 bits */
 #define MAXREC 160 /* recorded hooks per instance */
 
-enum { T_ECHO, T_ECHO_RST, T_ECHO_WORDS, T_ECHO_U64, T_REC, T_PROBE, T_INIT, T_COUNT };
+enum { T_ECHO, T_ECHO_RST, T_ECHO_WORDS, T_ECHO_U64, T_REC, T_PROBE, T_INIT, T_MIX, T_COUNT };
 static const char *const TYPE_NAMES[T_COUNT] = {"c35_echo",     "c35_echo_rst", "c35_echo_words",
                                                 "c35_echo_u64", "c35_rec",      "c35_probe",
-                                                "c35_init"};
+                                                "c35_init",     "c35_mix"};
 __attribute__((unused)) static const uint32_t TYPE_KINDS[T_COUNT] = {KIND_CLOCKED, KIND_CLOCKED, KIND_CLOCKED,
                                              KIND_CLOCKED, KIND_CLOCKED, KIND_UNSPECIFIED,
-                                             KIND_UNSPECIFIED};
+                                             KIND_UNSPECIFIED, KIND_CLOCKED};
 
 typedef struct Host Host;
 
@@ -80,6 +82,7 @@ typedef struct {
     int used;
     int type;
     uint32_t d, q, dw, qw;
+    uint32_t sel;
     uint32_t nseen;
     uint64_t seen_w[MAXREC][MAXW];
     uint64_t seen_m[MAXREC][MAXW];
@@ -208,6 +211,18 @@ static int comp_create(Inst *c, Host *h) {
             h_fail(h, "port too wide for the C fixture");
             return 1;
         }
+        if (c->type == T_MIX) {
+            i = h_port_index(h, "sel", DIR_INPUT);
+            if (i < 0) {
+                h_fail(h, "no input port named `sel`");
+                return 1;
+            }
+            c->sel = (uint32_t)i;
+            if (c->dw != c->qw) {
+                h_fail(h, "c35_mix needs equally wide d and q");
+                return 1;
+            }
+        }
         if (c->type == T_ECHO_U64 && (c->dw > 64 || c->qw > 64)) {
             h_fail(h, "c35_echo_u64 needs <= 64-bit ports");
             return 1;
@@ -254,6 +269,24 @@ static int comp_on_clock(Inst *c, Host *h) {
         to_port(ow, w, c->dw, c->qw);
         h_write_output(h, c->q, ow, NULL);
         return 0;
+    case T_MIX: {
+        uint64_t s[MAXW] = {0}, zero[MAXW] = {0};
+        h_read_input(h, c->sel, s, NULL);
+        uint32_t wmode = (uint32_t)(s[0] & 3u), rmode = (uint32_t)((s[0] >> 2) & 3u);
+        if (rmode == 1 || rmode == 2)
+            h_read_input(h, c->d, w, NULL); /* read_words / read_u64: NULL mask */
+        else
+            h_read_input(h, c->d, w, m);
+        to_port(ow, w, c->dw, c->qw);
+        to_port(om, m, c->dw, c->qw);
+        if (wmode == 0)
+            h_write_output(h, c->q, ow, om); /* write(Value with mask) */
+        else if (wmode == 3)
+            h_write_output(h, c->q, ow, zero); /* write(fully known Value) */
+        else
+            h_write_output(h, c->q, ow, NULL); /* write_words / write_u64 */
+        return 0;
+    }
     case T_REC:
         if (c->nseen >= MAXREC) {
             h_fail(h, "recorder full");
@@ -656,6 +689,7 @@ CREATE_FN(T_ECHO_U64)
 CREATE_FN(T_REC)
 CREATE_FN(T_PROBE)
 CREATE_FN(T_INIT)
+CREATE_FN(T_MIX)
 
 static void n_destroy(void *s) { free(s); }
 static int32_t n_nop(void *s, VrlCtx *ctx) {
@@ -689,7 +723,7 @@ static int32_t n_call_method(void *s, VrlCtx *ctx, VrlStr name, const VrlValue *
 static const VrlComponentVTable VTABLES[T_COUNT] = {
     VT(T_ECHO, KIND_CLOCKED), VT(T_ECHO_RST, KIND_CLOCKED), VT(T_ECHO_WORDS, KIND_CLOCKED),
     VT(T_ECHO_U64, KIND_CLOCKED), VT(T_REC, KIND_CLOCKED), VT(T_PROBE, KIND_UNSPECIFIED),
-    VT(T_INIT, KIND_UNSPECIFIED),
+    VT(T_INIT, KIND_UNSPECIFIED), VT(T_MIX, KIND_CLOCKED),
 };
 
 __attribute__((visibility("default"))) const VrlComponentVTable *veryl_component_lookup(VrlStr name) {
